@@ -156,9 +156,9 @@ theorem after_afterCreate {inp : Input} {s : Sys} {n : Name} {nd : Node} {l : LI
     · exact after_finishLoader (after_regexBlock l g h) hn' rfl
 
 /-- the creator call: every trigger of the creator has a terminal report already (that is C15 `after_trigger`) -/
-theorem after_evalCreator {inp : Input} {s s1 : Sys} {n : Name} {nd : Node} {l : LId} {tname : Name}
-    (h : AfterInv inp s) (hn : s.nodes n = some nd) (hpc : nd.pc = .loaderPc) (hl : nd.task.loader = some l)
-    (he : evalCreator inp s l tname = some s1) : AfterInv inp s1 ∧ s1.nodes n = some nd := by
+theorem after_evalCreator {inp : Input} {s : Sys} {n : Name} {nd : Node} {l : LId} (tname : Name)
+    (h : AfterInv inp s) (hn : s.nodes n = some nd) (hpc : nd.pc = .loaderPc) (hl : nd.task.loader = some l) :
+    AfterInv inp (evalCreator inp s l tname) ∧ (evalCreator inp s l tname).nodes n = some nd := by
   obtain ⟨hb, ht⟩ := h.node n nd hn
   have hrep : ∀ d ∈ trigOf inp (inp.creatorOf l), s.events.any (Ev.reports d) = true := by
     intro d hd
@@ -169,21 +169,20 @@ theorem after_evalCreator {inp : Input} {s s1 : Sys} {n : Name} {nd : Node} {l :
     · rw [hpc] at h3; obtain ⟨⟨_, e⟩, _⟩ := h3; cases e
     · rw [hw] at h3; cases h3
     · exact h.rep d h3
-  unfold evalCreator at he
+  have haft : afterOK (trigOf inp) (Ev.creator (inp.creatorOf l) :: s.events) = true := by
+    simp only [afterOK, Bool.and_eq_true, List.all_eq_true]
+    exact ⟨hrep, h.aft⟩
+  have hrep' : ∀ d, finOf s d = true → (Ev.creator (inp.creatorOf l) :: s.events).any (Ev.reports d) = true := by
+    intro d hd
+    simp only [List.any_cons, Bool.or_eq_true]
+    exact Or.inr (h.rep d hd)
+  unfold evalCreator
   cases hr : regTargets s.targets (targetPairs (inp.make (inp.creatorOf l) tname)) with
-  | none => simp only [hr] at he; cases he
+  | none => exact ⟨⟨h.node, h.tab, hrep', haft⟩, hn⟩
   | some tg =>
-    simp only [hr] at he; cases he
-    refine ⟨?_, hn⟩
-    constructor
-    · exact h.node
-    · intro k td hk l0 h0
-      exact h.tab k td (insertNew_old _ _ _ _ _ _ _ hk h0) l0 h0
-    · intro d hd
-      simp only [List.any_cons, Bool.or_eq_true]
-      exact Or.inr (h.rep d hd)
-    · simp only [afterOK, Bool.and_eq_true, List.all_eq_true]
-      exact ⟨hrep, h.aft⟩
+    refine ⟨⟨h.node, ?_, hrep', haft⟩, hn⟩
+    intro k td hk l0 h0
+    exact h.tab k td (insertNew_old _ _ _ _ _ _ _ hk h0) l0 h0
 
 theorem after_loaderStep {inp : Input} {s : Sys} {n : Name} {nd : Node} {l : LId} (h : AfterInv inp s)
     (hn : s.nodes n = some nd) (hpc : nd.pc = .loaderPc) (hl : nd.task.loader = some l) :
@@ -194,11 +193,10 @@ theorem after_loaderStep {inp : Input} {s : Sys} {n : Name} {nd : Node} {l : LId
   | some tT =>
     simp only []
     split
-    · cases he : evalCreator inp s l (toLoad inp l n) with
-      | none => exact h.congr rfl rfl rfl
-      | some s1 =>
-        obtain ⟨h1, hn1⟩ := after_evalCreator h hn hpc hl he
-        exact after_afterCreate h1 hn1
+    · obtain ⟨h1, hn1⟩ := after_evalCreator (toLoad inp l n) h hn hpc hl
+      split
+      · exact h1
+      · exact after_afterCreate h1 hn1
     · exact after_afterCreate h hn
 
 theorem after_dtick {inp : Input} {s : Sys} (h : AfterInv inp s) : AfterInv inp (dtick inp s) := by
